@@ -34,6 +34,17 @@ CLAIMED = {
                      "abstract interpretation of the sign expression, constant-set checks",
         "design_ref": "DESIGN.md section 3, C01",
     },
+    "C02": {
+        "text": "Decides structural clauses D1-D3 of C02: at every site that combines component results (point-wise and grid "
+                "interpolation, combined quadrature rule, integral, dimension-adaptive driver, parallel helper) the accumulator starts "
+                "empty, the loop visits the whole scheme without early exit (only zero-coefficient skips), and the update adds the "
+                "result computed for THIS element times THIS element's coefficient; perform_operation initialises before and reads the "
+                "result after the complete loop; points and weights use the same tensor enumerator, are filled from the same 1-D "
+                "source in the same loop, with the same boundary slice. Exactness / reproduction at grid points is NOT decided.",
+        "technique": "loop-shape and accumulator discipline on the CFG, same-object value terms, sibling agreement of enumerators "
+                     "and slices",
+        "design_ref": "DESIGN.md section 3, C02",
+    },
     "C05": {
         "text": "Decides structural clauses D1-D5 of C05: every accumulator (area, container, operation) receives the same "
                 "coefficient-weighted term in all four evaluation routines; removals subtract value and evaluations of the popped position "
